@@ -269,7 +269,13 @@ static void run_x86(const vh::Case& c, vh::Ctx& ctx, int mode) {
         std::vector<uint8_t> L2; std::string e2; unsigned f2 = 0;
         bool ok2 = mc.assemble(want, L2, e2, &f2) && f2 == 0 && !L2.empty();
         SeqText dW = ok2 ? llvm_seq(mc, L2.data(), L2.size()) : SeqText();
-        if (ok2 && norm_text(dW.text, opsize, addrbits) == norm_text(dA.text, opsize, addrbits))
+        // LLVM can only arbitrate if its disassembler is consistent with its own assembler for this instruction: re-assembling what it
+        // printed for its own bytes must give those bytes back (LLVM 14 prints EVEX.W1 vshuff64x2 ymm with {1toN} as vshuff32x4 and scales
+        // disp8 by the wrong element size - a decoder defect that made two equivalent encodings look different)
+        bool llvm_consistent = true;
+        if (dL.count == 1) { std::vector<uint8_t> L3; std::string e3; unsigned f3 = 0; llvm_consistent = mc.assemble(dL.text, L3, e3, &f3) && f3 == 0 && L3 == L; }
+        if (!llvm_consistent) ctx.cls("llvm_decoder_inconsistent_with_its_assembler_unarbitrated");
+        else if (ok2 && norm_text(dW.text, opsize, addrbits) == norm_text(dA.text, opsize, addrbits))
           ctx.fail_unless_known("text-reads-as-other-instruction:" + f.name, desc + ": LLVM MC reads the text as '" + dL.text + "' but the bytes " + hexu(buf.data(), buf.size()) + " are '" + dA.text + "'");
         else ctx.cls("llvm_reading_differs_unarbitrated");
       } else ctx.cls("llvm_reads_text_like_bytes");
